@@ -240,7 +240,7 @@ PROPERTIES.update({
         "level": "proof",
         "verus": [("u04_ids", ["exid_to_opid", "op_cursor_to_opid", "new", "get_actor_safe"]), ("u16_autocommit", ["ensure_transaction_open", "commit_with", "empty_change", "ensure_transaction_closed"]), ("u19_import", "*"),
                   ("u21_patchlog_tx", "*")],
-        "kani": ["u04_opid_new", "u12_normalize_range", "u08_width_single_scalar"],
+        "kani": ["u04_opid_new", "u12_normalize_range", "u08_width_single_scalar", "u04_changehash_try_from_slice"],
         "not_under_contract": ["every other public entry point", "the ~100 internal OpId::new call sites", "hydrate::Value::apply_patches"],
         "assumptions": ["a document has at most u32::MAX actors"],
         "explanation": "For the id/cursor argument conversions and list-range normalisation only: normalize_range is proved (Kani, complete over all pairs of bounds) never to panic and to return exactly "
@@ -257,7 +257,7 @@ PROPERTIES.update({
         "level": "proof",
         "verus": [("u02_parse", "*"), ("u01_bloom", ["parse", "get_probes", "contains_hash", "add_hash", "set_bit"]), ("u04_ids", ["exid_to_opid", "op_cursor_to_opid", "new"]),
                   ("u04c_codecs", ["try_from", "parse_0"]), ("u06v_hexane_str", "*"), ("u15_colids", ["try_next", "try_load", "new", "root", "from"]), ("u19_import", "*")],
-        "kani": ["u15_try_load_total", "u15_raw_read_bytes", "u17_from_raw_string_valid", "u02k_length_prefixed_total", "u02k_apply_n_total", "u06_codec_reads_agree", "u01_parse_wf_quick", "u01_parse_wf_thorough", "u01_query_total", "u03_header_parse_q", "u03_header_parse_t", "u03_chunktype_codes",
+        "kani": ["u04_changehash_try_from_slice", "u15_try_load_total", "u15_raw_read_bytes", "u17_from_raw_string_valid", "u02k_length_prefixed_total", "u02k_apply_n_total", "u06_codec_reads_agree", "u01_parse_wf_quick", "u01_parse_wf_thorough", "u01_query_total", "u03_header_parse_q", "u03_header_parse_t", "u03_chunktype_codes",
                  "u04_exid_try_from_total_q", "u04_exid_try_from_total_t", "u04_cursor_from_str_total_q",
                  "u05_flags_parse_bytes",
                  "u06_int_unpack_total", "u06_narrow_unpack_total", "u06_string_unpack_q", "u06_string_unpack_t", "u06_string_unpack_huge_len",
